@@ -1499,6 +1499,20 @@ func e2eFacts(f *facts) {
 		}
 	}
 	f.strs["e2e_listener_final_flush"] = ff
+	f.note["c07_error_condition"] = "tcpLineListener.runConnection: the only condition under which a failed read does not signal the connection closer"
+	var ec []string
+	if fd := fn("input/tcplistener/tcplinelistener.go", "runConnection", "tcpLineListener"); fd != nil {
+		inspect(fd.Body, func(n ast.Node) bool {
+			if is, ok := n.(*ast.IfStmt); ok && is.Else != nil && strings.Contains(src(is.Else), "connAborter.Signal()") && !strings.Contains(src(is.Body), "connAborter.Signal()") {
+				ec = append(ec, src(is.Cond))
+			}
+			if sw, ok := n.(*ast.SwitchStmt); ok && strings.Contains(src(sw), "connAborter.Signal()") {
+				ec = append(ec, "switch")
+			}
+			return true
+		})
+	}
+	f.strs["c07_error_condition"] = ec
 	f.note["e2e_recovery_scans"] = "obykeyset Config.StartOrchestrator: existing queue directories are listed for every output/buffer pair"
 	var rs []string
 	if fd := fn("orchestrate/obykeyset/config.go", "StartOrchestrator", "Config"); fd != nil {
